@@ -135,7 +135,7 @@ contract('harness:nli_monotone', harness=H_TWO, module='gnpy.core.science_utils'
 
 # beta2 from the fibre's dispersion data (scalar dispersion D0 at the reference frequency, optional slope S):
 # D(lambda) = D0 + S (lambda - lambda_ref), or D0 (f / f_ref)^2 without a slope;  beta2 = - lambda^2 D / (2 pi c)
-contract('gnpy.core.elements.Fiber.beta2', name='gnpy.core.elements.Fiber.beta2[scalar dispersion, optional slope]', props=['C03', 'C05'],
+contract('gnpy.core.elements.Fiber.beta2', name='gnpy.core.elements.Fiber.beta2[scalar dispersion, optional slope]', props=['C03', 'C05', 'C01'],
          params={'self': FIBER, 'frequency': vec('n')},
          requires=[('positive_frequencies', 'forall(lambda i: frequency[i] > 0, len(frequency))'), ('ref', 'self.params._f_dispersion_ref > 0')],
          let={'p': 'self.params', 'c0': '299792458'},
